@@ -13,6 +13,7 @@ import builtins
 import dataclasses
 import enum
 import hashlib
+import functools
 import inspect
 import operator
 import textwrap
@@ -680,6 +681,10 @@ class Engine:
             return self.decide(v.n != 0)
         if isinstance(v, SList):
             return self.decide(v.n != 0)
+        if isinstance(v, GuardedList):
+            if any(g is None for g, _ in v.items):
+                return True
+            return self.decide(z3.Or([g for g, _ in v.items])) if v.items else False
         if isinstance(v, (SObj, Opaque)):
             return True
         if isinstance(v, Sym):
@@ -812,6 +817,12 @@ class Engine:
             if self.guards:
                 raise MergeFail('list mutation under guard')
             return fn(*args, **kwargs)          # a concrete list may hold symbolic elements
+        if anysym and isinstance(fn, types.BuiltinMethodType) and isinstance(getattr(fn, '__self__', None), dict) \
+                and fn.__name__ in ('setdefault', 'get', 'pop', 'update') and args and \
+                (fn.__name__ == 'update' or not isinstance(args[0], Sym)):
+            if self.guards and fn.__name__ != 'get':
+                raise MergeFail('dict mutation under guard')
+            return fn(*args, **kwargs)          # concrete key, symbolic value
         if anysym:
             if isinstance(fn, type) and issubclass(fn, BaseException):
                 return fn('<symbolic message>')
@@ -819,6 +830,10 @@ class Engine:
         return self.native(fn, args, kwargs)
 
     def native(self, fn, args, kwargs):
+        if isinstance(fn, SymCallable):
+            # a model / closure of the interpreter: program exceptions arrive as RaiseEx; anything else is an error of the
+            # model and must not be taken for an exception of the program
+            return fn(*args, **kwargs)
         try:
             return fn(*args, **kwargs)
         except (ReturnEx, RaiseEx, BreakEx, ContinueEx, Unsupported, Infeasible, RestartAll, MergeFail,
@@ -997,6 +1012,56 @@ def _is_enumlike(a):
 # --------------------------------------------------------------------------
 # frames
 # --------------------------------------------------------------------------
+_NOFIRST = object()
+
+
+def _walk_own(node):
+    """walk a statement without entering nested function / class definitions and lambdas"""
+    yield node
+    for c in ast.iter_child_nodes(node):
+        if isinstance(c, (ast.FunctionDef, ast.AsyncFunctionDef, ast.ClassDef, ast.Lambda)):
+            continue
+        yield from _walk_own(c)
+
+
+def _bind(a, defaults, kw_defaults, args, kwargs, name):
+    """Python's argument binding for an ast.arguments node"""
+    pos = [x.arg for x in a.posonlyargs + a.args]
+    locs = {}
+    args = list(args)
+    kwargs = dict(kwargs)
+    if len(args) > len(pos) and a.vararg is None:
+        raise RaiseEx(TypeError(f'{name}() takes {len(pos)} positional arguments but {len(args)} were given'))
+    for n, v in zip(pos, args):
+        locs[n] = v
+    if a.vararg is not None:
+        locs[a.vararg.arg] = tuple(args[len(pos):])
+    dflt = dict(zip(pos[len(pos) - len(defaults):], defaults))
+    posonly = {x.arg for x in a.posonlyargs}
+    for n in pos[len(args):]:
+        if n in kwargs and n not in posonly:
+            locs[n] = kwargs.pop(n)
+        elif n in dflt:
+            locs[n] = dflt[n]
+        else:
+            raise RaiseEx(TypeError(f'{name}() missing required argument {n!r}'))
+    for x, dnode, d in zip(a.kwonlyargs, a.kw_defaults, kw_defaults):
+        if x.arg in kwargs:
+            locs[x.arg] = kwargs.pop(x.arg)
+        elif dnode is not None:
+            locs[x.arg] = d
+        else:
+            raise RaiseEx(TypeError(f'{name}() missing keyword-only argument {x.arg!r}'))
+    for n in list(kwargs):
+        if n in locs and n not in (a.kwarg.arg if a.kwarg else ()):
+            raise RaiseEx(TypeError(f'{name}() got multiple values for argument {n!r}'))
+    if a.kwarg is not None:
+        locs[a.kwarg.arg] = kwargs
+    elif kwargs:
+        raise RaiseEx(TypeError(f'{name}() got an unexpected keyword argument {next(iter(kwargs))!r}'))
+    return locs
+
+
 class Frame:
     def __init__(self, eng, fn, locs):
         self.eng, self.fn, self.locs = eng, fn, locs
@@ -1011,6 +1076,8 @@ class Frame:
                 except ValueError:
                     pass
         self.gen_out = None
+        self.parent = None          # enclosing frame of a nested function / lambda
+        self.nonlocals = set()
 
     def mangle(self, attr):
         if attr.startswith('__') and not attr.endswith('__') and self.clsname:
@@ -1048,16 +1115,47 @@ class Frame:
         if isinstance(s.value, ast.Yield):
             self.gen_out.append(self.ev(s.value.value) if s.value.value else None)
             return
+        if isinstance(s.value, ast.YieldFrom):
+            for g, x in self.iterate(self.ev(s.value.value)):
+                if g is not None:
+                    raise Unsupported('yield from a guarded collection')
+                self.gen_out.append(x)
+            return
         self.ev(s.value)
 
     def st_Pass(self, s):
         pass
 
     def st_Import(self, s):
-        pass
+        import importlib
+        for a in s.names:
+            try:
+                mod = importlib.import_module(a.name)
+            except ImportError as e:
+                raise RaiseEx(e)
+            if a.asname:
+                self.locs[a.asname] = mod
+            else:
+                self.locs[a.name.split('.')[0]] = importlib.import_module(a.name.split('.')[0])
 
     def st_ImportFrom(self, s):
-        pass
+        import importlib
+        pkg = self.globs.get('__package__') or self.fn.__module__.rpartition('.')[0]
+        try:
+            mod = importlib.import_module('.' * s.level + (s.module or ''), pkg if s.level else None)
+        except ImportError as e:
+            raise RaiseEx(e)
+        for a in s.names:
+            if a.name == '*':
+                raise Unsupported('import *')
+            try:
+                v = getattr(mod, a.name)
+            except AttributeError:
+                try:
+                    v = importlib.import_module(mod.__name__ + '.' + a.name)
+                except ImportError as e:
+                    raise RaiseEx(e)
+            self.locs[a.asname or a.name] = v
 
     def st_Return(self, s):
         raise ReturnEx(self.ev(s.value) if s.value else None)
@@ -1263,19 +1361,81 @@ class Frame:
             self.eng.call(ex, [None, None, None], {})
 
     def st_FunctionDef(self, s):
-        raise Unsupported('nested def')
+        """a nested function: a closure over this frame (reads see the frame's current locals, `nonlocal` writes go to
+        it); generators are run eagerly like repository generators"""
+        if s.decorator_list:
+            raise Unsupported('decorated nested def')
+        self.assign(ast.Name(id=s.name, ctx=ast.Store()), self._closure(s.args, s.body, s.name, is_lambda=False))
+
+    def _closure(self, argsnode, body, name, is_lambda):
+        frame = self
+        defaults = [self.ev(d) for d in argsnode.defaults]
+        kw_defaults = [None if d is None else self.ev(d) for d in argsnode.kw_defaults]
+        is_gen = (not is_lambda) and any(isinstance(n, (ast.Yield, ast.YieldFrom)) for st in body for n in _walk_own(st))
+
+        def call(*a, **k):
+            locs = _bind(argsnode, defaults, kw_defaults, a, k, name)
+            sub = Frame(frame.eng, frame.fn, locs)
+            sub.parent = frame
+            if is_lambda:
+                return sub.ev(body)
+            if is_gen:
+                sub.gen_out = []
+                try:
+                    sub.exec_block(body)
+                except ReturnEx:
+                    pass
+                return sub.gen_out
+            try:
+                sub.exec_block(body)
+            except ReturnEx as r:
+                return r.v
+            return None
+        c = SymCallable(call)
+        c.__name__ = name
+        return c
+
+    def st_Nonlocal(self, s):
+        self.nonlocals.update(s.names)
+
+    def st_Global(self, s):
+        raise Unsupported('global statement')
+
+    def _owner(self, name):
+        """the enclosing frame that holds a nonlocal name"""
+        f = self.parent
+        while f is not None:
+            if name in f.locs:
+                return f
+            f = f.parent
+        raise RaiseEx(NameError(name))
 
     # ---- assignment
     def assign(self, t, v):
         eng = self.eng
         if isinstance(t, ast.Name):
+            locs = self._owner(t.id).locs if t.id in self.nonlocals else self.locs
             if eng.guards:
-                v = eng.guarded_new(self.locs.get(t.id), v, t.id in self.locs)
-            self.locs[t.id] = v
+                v = eng.guarded_new(locs.get(t.id), v, t.id in locs)
+            locs[t.id] = v
         elif isinstance(t, (ast.Tuple, ast.List)):
             if isinstance(v, Sym) and not isinstance(v, SStr):
                 raise Unsupported('unpack symbolic')
             vs = list(v) if not isinstance(v, SStr) else [SStr([c]) for c in v.chars]
+            stars = [i for i, tt in enumerate(t.elts) if isinstance(tt, ast.Starred)]
+            if len(stars) > 1:
+                raise Unsupported('several starred targets')
+            if stars:
+                i = stars[0]
+                after = len(t.elts) - i - 1
+                if len(vs) < len(t.elts) - 1:
+                    raise RaiseEx(ValueError('not enough values to unpack'))
+                for tt, vv in zip(t.elts[:i], vs[:i]):
+                    self.assign(tt, vv)
+                self.assign(t.elts[i].value, vs[i:len(vs) - after])
+                for tt, vv in zip(t.elts[i + 1:], vs[len(vs) - after:]):
+                    self.assign(tt, vv)
+                return
             if len(vs) != len(t.elts):
                 raise RaiseEx(ValueError('unpack'))
             for tt, vv in zip(t.elts, vs):
@@ -1284,6 +1444,15 @@ class Frame:
             o = self.ev(t.value)
             a = self.mangle(t.attr)
             if isinstance(o, SObj):
+                ca = inspect.getattr_static(o.cls, a, None)
+                if isinstance(ca, property) and getattr(ca.fget, '__module__', '').startswith(eng.repo_prefix):
+                    # a data descriptor of a repository class: assignment calls its setter
+                    if ca.fset is None:
+                        raise RaiseEx(AttributeError(f"property '{a}' has no setter"))
+                    if eng.guards:
+                        raise MergeFail('property setter under guard')
+                    eng.call_function(ca.fset, [o, v], {})
+                    return
                 if eng.guards:
                     v = eng.guarded_new(o.attrs.get(a), v, a in o.attrs)
                 o.attrs[a] = v
@@ -1330,6 +1499,10 @@ class Frame:
             return
         k = self.ev(sl)
         if isinstance(o, dict):
+            if isinstance(k, SEnum) and k.opt:
+                # an Optional[Enum] key: None is decided first (usually excluded by the path), so that the member case can
+                # be written as one ite per slot instead of a fork per member
+                k = None if eng.decide(k.z == 0) else SEnum(k.cls, k.z, opt=False)
             if isinstance(k, SEnum):
                 keys = [m for m in k.cls if m in o]
                 if keys and len(keys) == len(list(k.cls)) and not k.opt:
@@ -1406,6 +1579,11 @@ class Frame:
     def ex_Name(self, e):
         if e.id in self.locs:
             return self.locs[e.id]
+        f = self.parent
+        while f is not None:
+            if e.id in f.locs:
+                return f.locs[e.id]
+            f = f.parent
         if e.id in self.closure:
             return self.closure[e.id]
         if e.id in self.globs:
@@ -1416,10 +1594,16 @@ class Frame:
             raise RaiseEx(NameError(e.id))
 
     def ex_Tuple(self, e):
-        return tuple(self._elts(e.elts))
+        r = self._elts(e.elts)
+        if isinstance(r, _StarOnly):
+            return r.v
+        return tuple(r)
 
     def ex_List(self, e):
-        return list(self._elts(e.elts))
+        r = self._elts(e.elts)
+        if isinstance(r, _StarOnly):
+            return r.v            # [*s] is list(s): the symbolic collection itself stands for the list
+        return list(r)
 
     def ex_Set(self, e):
         vals = self._elts(e.elts)
@@ -1431,7 +1615,12 @@ class Frame:
         out = []
         for x in elts:
             if isinstance(x, ast.Starred):
-                out.extend(list(self.ev(x.value)))
+                v = self.ev(x.value)
+                if isinstance(v, Sym) and not isinstance(v, SStr):
+                    if len(elts) == 1:
+                        return _StarOnly(v)
+                    raise Unsupported('star-unpacking of a symbolic collection next to other elements')
+                out.extend(list(v))
             else:
                 out.append(self.ev(x))
         return out
@@ -1439,6 +1628,12 @@ class Frame:
     def ex_Dict(self, e):
         d = {}
         for k, v in zip(e.keys, e.values):
+            if k is None:
+                m = self.ev(v)
+                if isinstance(m, Sym) or not isinstance(m, dict):
+                    raise Unsupported('dict literal ** of ' + type(m).__name__)
+                d.update(m)
+                continue
             kk = self.ev(k)
             if isinstance(kk, SEnum):
                 kk = self.eng.concretize_enum(kk)
@@ -1517,6 +1712,13 @@ class Frame:
                 raise RaiseEx(AttributeError(f'{o.cls.__name__} object has no attribute {a}'))
             if isinstance(ca, property):
                 return eng.call_function(ca.fget, [o], {})
+            if isinstance(ca, functools.cached_property):
+                # non-data descriptor: computed on the first read and kept in the instance dictionary
+                v = eng.call_function(ca.func, [o], {})
+                if eng.guards:
+                    raise MergeFail('cached_property under guard')
+                o.attrs[a] = v
+                return v
             if isinstance(ca, types.FunctionType):
                 return BoundSym(ca, o)
             if isinstance(ca, staticmethod):
@@ -1548,7 +1750,7 @@ class Frame:
                 return eng.call_function(ca.fget, [o], {})
         if isinstance(o, (list, dict, set, str)) and eng.guards and a in MUTATORS:
             raise MergeFail('mutator under guard')
-        if isinstance(o, str) or isinstance(o, (list, dict, tuple)):
+        if isinstance(o, (str, bytes, list, dict, tuple)):
             from . import builtins_model as bm
             r = bm.concrete_method(self, o, a)
             if r is not bm.NOT_HANDLED:
@@ -1573,6 +1775,12 @@ class Frame:
             if any(isinstance(x, Sym) for x in (lo, hi, st)):
                 raise Unsupported('symbolic slice bounds on SStr')
             return SStr(o.chars[slice(lo, hi, st)])
+        if isinstance(o, SList) and st is None and hi is None and isinstance(lo, int) and lo < 0:
+            # the last k elements of a list of symbolic length: fork on how many there are (at most k)
+            k = -lo
+            for j in range(k, -1, -1):
+                if j == 0 or self.eng.decide(o.n >= j):
+                    return [SEnum(o.cls, z3.Select(o.arr, o.n - j + i)) for i in range(j)]
         if isinstance(o, SArr) and not any(isinstance(x, Sym) for x in (lo, hi, st)):
             return SArr(o.items[slice(lo, hi, st)])
         if isinstance(o, Sym) or any(isinstance(x, Sym) for x in (lo, hi, st)):
@@ -1612,6 +1820,15 @@ class Frame:
                     return SStr([o.chars[k]])
                 except IndexError as ex:
                     raise RaiseEx(ex)
+            if isinstance(k, SInt):
+                n = len(o.chars)
+                if n == 0 or not eng.decide(z3.And(k.z >= -n, k.z < n)):
+                    raise RaiseEx(IndexError('string index out of range'))
+                from . import sstr as _ss
+                ch = _ss.zc(o.chars[n - 1])
+                for i in range(n - 2, -1, -1):
+                    ch = z3.If(z3.Or(k.z == i, k.z == i - n), _ss.zc(o.chars[i]), ch)
+                return SStr([z3.simplify(ch)])
             raise Unsupported('symbolic index into SStr')
         if isinstance(o, dict):
             if isinstance(k, SEnum):
@@ -1619,6 +1836,8 @@ class Frame:
                 if keys and len(keys) == len(list(k.cls)):
                     if k.opt and eng.decide(k.z == 0):
                         raise RaiseEx(KeyError(None))
+                    if all(isinstance(o[m], CardSet) for m in keys):
+                        return AltObj([(k.z == enum_code(m), o[m]) for m in keys])
                     try:
                         r = o[keys[-1]]
                         for m in reversed(keys[:-1]):
@@ -1714,13 +1933,35 @@ class Frame:
             return SInt(-v.z) if isinstance(v, SInt) else -v
         if isinstance(e.op, ast.UAdd):
             return v
+        if isinstance(e.op, ast.Invert):
+            if isinstance(v, SInt):
+                return SInt(-v.z - 1)
+            if not isinstance(v, Sym):
+                try:
+                    return ~v
+                except Exception as ex:
+                    raise RaiseEx(ex)
         raise Unsupported('unary')
 
     def ex_BoolOp(self, e):
         """short-circuit semantics; symbolic bool operands are combined, later operands being evaluated
         under the guard that makes them reachable"""
         is_and = isinstance(e.op, ast.And)
-        return self._boolop(e.values, 0, [], is_and)
+        key = _node_key(e)
+        if key in self.eng.no_merge or not self.eng.merge:
+            # Python's own evaluation, deciding every symbolic operand (fork)
+            v = is_and
+            for x in e.values:
+                v = self.ev(x)
+                t = self.eng.truth(v) if isinstance(v, Sym) else bool(v)
+                if t != is_and:
+                    return v
+            return v
+        try:
+            return self._boolop(e.values, 0, [], is_and)
+        except MergeFail:
+            self.eng.no_merge.add(key)
+            raise RestartAll()
 
     def _boolop(self, values, i, acc, is_and):
         if i == len(values):
@@ -1744,18 +1985,18 @@ class Frame:
                 return v
             if isinstance(v, bool):
                 return SBool(z3.BoolVal(False))
-            raise Unsupported('and: non-bool falsy operand after symbolic conditions')
+            raise MergeFail('and: non-bool falsy operand after symbolic conditions')
         if not is_and and t:
             if not acc:
                 return v
             if isinstance(v, bool):
                 return SBool(z3.BoolVal(True))
-            raise Unsupported('or: non-bool truthy operand after symbolic conditions')
+            raise MergeFail('or: non-bool truthy operand after symbolic conditions')
         if last:
             if not acc:
                 return v
             if not isinstance(v, bool):
-                raise Unsupported('bool-op: non-bool last operand after symbolic conditions')
+                raise MergeFail('bool-op: non-bool last operand after symbolic conditions')
         return self._boolop(values, i + 1, acc, is_and)
 
     def _boolop_mixed(self, acc, v, is_and):
@@ -1777,13 +2018,17 @@ class Frame:
                 return self.ev(e.body)
             if z3.is_false(zs):
                 return self.ev(e.orelse)
-            a = self.eng.under_guard(z, lambda: self.ev(e.body))
-            b = self.eng.under_guard(z3.Not(z), lambda: self.ev(e.orelse))
-            if a is DEAD:
-                return b if b is not DEAD else None
-            if b is DEAD:
-                return a
             try:
+                a = self.eng.under_guard(z, lambda: self.ev(e.body))
+                b = self.eng.under_guard(z3.Not(z), lambda: self.ev(e.orelse))
+                if a is DEAD:
+                    return b if b is not DEAD else None
+                if b is DEAD:
+                    return a
+                if a is not b and (isinstance(a, (CardSet, SArr, SLog, SList)) or isinstance(b, (CardSet, SArr, SLog, SList))):
+                    # two distinct mutable objects: a merged copy would lose the aliasing (`h = own if c else dummy;
+                    # h.remove(x)` must change own or dummy): decide the condition instead
+                    raise MergeFail('conditional expression selecting between mutable objects')
                 return self.eng.ite(z, a, b)
             except MergeFail:
                 self.eng.no_merge.add(key)
@@ -1837,22 +2082,22 @@ class Frame:
         return self.eng.call(fn, args, kwargs)
 
     def ex_Lambda(self, e):
-        frame = self
+        return self._closure(e.args, e.body, '<lambda>', is_lambda=True)
 
-        def lam(*args):
-            sub = Frame(frame.eng, frame.fn, dict(frame.locs))
-            for p, a in zip(e.args.args, args):
-                sub.locs[p.arg] = a
-            return sub.ev(e.body)
-        return SymCallable(lam)
+    def ex_NamedExpr(self, e):
+        v = self.ev(e.value)
+        self.assign(e.target, v)
+        return v
 
     # comprehensions
-    def _comp(self, gens, idx, emit):
+    def _comp(self, gens, idx, emit, first=_NOFIRST):
+        """`first`: the already evaluated iterable of the first generator (its expression is evaluated exactly once,
+        it may have side effects, e.g. a call of a generator method)"""
         if idx == len(gens):
             emit()
             return
         g = gens[idx]
-        it = self.ev(g.iter)
+        it = first if idx == 0 and first is not _NOFIRST else self.ev(g.iter)
         for guard, x in self.iterate(it):
             def element(x=x):
                 self.assign_nomerge(g.target, x)
@@ -1881,7 +2126,7 @@ class Frame:
         finally:
             self.eng.guards = saved
 
-    def _collect(self, e_elt, gens):
+    def _collect(self, e_elt, gens, first=_NOFIRST):
         out = []
         eng = self.eng
         base = len(eng.guards)
@@ -1890,35 +2135,46 @@ class Frame:
             gs = eng.guards[base:]
             g = None if not gs else (z3.And(gs) if len(gs) > 1 else gs[0])
             out.append((g, self.ev(e_elt)))
-        self._comp(gens, 0, emit)
+        self._comp(gens, 0, emit, first)
         return out
 
     def ex_ListComp(self, e):
         first_it = self.ev(e.generators[0].iter)
         if (isinstance(first_it, (CardSet, GuardedList)) or type(first_it).__name__ == 'SortedCards') \
                 and len(e.generators) == 1:
-            self._first_iter_cache = first_it
-            out = self._collect(e.elt, e.generators)
+            out = self._collect(e.elt, e.generators, first_it)
             if any(g is not None for g, _ in out):
                 return GuardedList(out)
             return [v for _, v in out]
+        key = _node_key(e)
+        if self.eng.merge and key not in self.eng.no_merge and not isinstance(first_it, Sym) and _pure_expr(e):
+            # conditions that are symbolic become guards of the elements (no fork per element); shapes that cannot be
+            # merged fall back to forking
+            try:
+                out = self._collect(e.elt, e.generators, first_it)
+                if any(g is not None for g, _ in out):
+                    return GuardedList(out)
+                return [v for _, v in out]
+            except MergeFail:
+                self.eng.no_merge.add(key)
+                raise RestartAll()
         out = []
 
         def emit():
             out.append(self.ev(e.elt))
-        self._comp_forking(e.generators, 0, emit)
+        self._comp_forking(e.generators, 0, emit, first_it)
         return out
 
     def ex_GeneratorExp(self, e):
         return self.ex_ListComp(e)
 
-    def _comp_forking(self, gens, idx, emit):
+    def _comp_forking(self, gens, idx, emit, first=_NOFIRST):
         """comprehension whose conditional elements are decided by forking"""
         if idx == len(gens):
             emit()
             return
         g = gens[idx]
-        it = self.ev(g.iter)
+        it = first if idx == 0 and first is not _NOFIRST else self.ev(g.iter)
         for guard, x in self.iterate(it):
             if guard is not None and not self.eng.decide(guard):
                 continue
@@ -1957,11 +2213,13 @@ class Frame:
             self.eng.assume(n <= first_it.n)
             return cs
         if isinstance(first_it, (CardSet, GuardedList)):
-            pairs = self._collect(e.elt, gens)
+            pairs = self._collect(e.elt, gens, first_it)
             cs = CardSet([z3.BoolVal(False)] * 52, z3.IntVal(0))
+            if pairs and not any(cards.is_card(v) for _, v in pairs):
+                return GuardedList(pairs)        # a set of plain values: only membership / iteration are modelled
             for g, v in pairs:
                 if not cards.is_card(v):
-                    raise Unsupported('guarded set comprehension of non-cards')
+                    raise Unsupported('guarded set comprehension mixing cards and other values')
                 if g is not None:
                     self.eng.under_guard(g, lambda v=v: cards.add(self.eng, cs, v))
                 else:
@@ -1971,7 +2229,7 @@ class Frame:
 
         def emit():
             out.append(self.ev(e.elt))
-        self._comp_forking(gens, 0, emit)
+        self._comp_forking(gens, 0, emit, first_it)
         if out and all(cards.is_card(v) for v in out) and any(isinstance(v, Sym) for v in out):
             return cards.cardset_from_symbolic_cards(self.eng, out)
         if any(isinstance(v, Sym) for v in out):
@@ -1997,11 +2255,37 @@ class Frame:
         raise Unsupported('starred')
 
 
+class _StarOnly:
+    def __init__(s, v):
+        s.v = v
+
+
+class AltObj(Sym):
+    """one of several mutable objects, selected by guards (e.g. d[k] for a symbolic key k over a dict of sets): method calls
+    are applied to every alternative under its guard"""
+
+    def __init__(s, alts):
+        s.alts = alts          # [(z3 Bool, object)]
+
+
 class SymSetLiteral(Sym):
     """a set literal with symbolic members; only membership tests are supported"""
 
     def __init__(s, items):
         s.items = items
+
+
+def _pure_expr(e):
+    """comprehension without calls to known mutators (its element / conditions can be evaluated under a guard)"""
+    for n in ast.walk(e):
+        if isinstance(n, ast.Call):
+            f = n.func
+            nm = f.attr if isinstance(f, ast.Attribute) else getattr(f, 'id', '')
+            if nm in MUTATORS:
+                return False
+        if isinstance(n, (ast.Yield, ast.YieldFrom, ast.Await, ast.NamedExpr)):
+            return False
+    return True
 
 
 def _symkey(k):
